@@ -151,5 +151,56 @@ def r08a(ctx, rep):
             rep.holds('R08a', rest, fld, 'cleared, not refilled, unused outside the router (listed as candidate)')
 
 
+def r08b(ctx, rep):
+    rep.rule('R08b', 'rollback loads its target before anything can delete it: in CheckpointManager::rollback no call that reaches '
+                     'checkpoint deletion (RetentionManager::enforce, CheckpointStorage::delete — e.g. creating a safety checkpoint, which '
+                     'runs count-based retention) is reachable before CheckpointStorage::load of the target has returned, and the store is '
+                     'restored from the state that load returned')
+    cr = ctx.crate('tensor_checkpoint')
+    cg = ctx.callgraph(['tensor_checkpoint'])
+    bodies = [f for f in A.with_closures(cr.fns, 'tensor_checkpoint::CheckpointManager::rollback')]
+    n = 0
+    deleters = re.compile(r'RetentionManager::enforce|CheckpointStorage::delete|BlobStore::delete')
+    for f in bodies:
+        loads = A.calls_to(f, ('re', r'CheckpointStorage::load$'))
+        if not loads:
+            continue
+        n += 1
+        rep.analysed(f)
+        defs = A.Defs(f)
+        # calls reachable from the entry without passing the load
+        R = A.reachable(f, [0], cut_blocks={c.bb for c in loads})
+        bad = None
+        for c in A.calls(f):
+            if c.bb not in R or c.bb in {x.bb for x in loads}:
+                continue
+            tgt = [c.resolved] + [x for x in cg.fns if x.startswith(c.resolved + '::{')]
+            p = cg.path(c.resolved, lambda x: deleters.search(x) is not None) if c.resolved in cg.fns else None
+            if deleters.search(c.resolved) or p:
+                bad = (c, p)
+                break
+        if bad:
+            c, p = bad
+            rep.violation('R08b', f, 'delete-before-load', f.loc(c.line),
+                          'rollback calls %s before it has loaded its target, and that call reaches checkpoint deletion (%s): with the store '
+                          'at its retention limit the target is evicted inside rollback and the rollback fails with NotFound — the checkpoint '
+                          'is lost for good' % (lib.short(c.resolved), ' → '.join(lib.short(x) for x in (p or [c.resolved]))))
+        else:
+            rep.holds('R08b', f, 'load first', 'nothing that reaches deletion runs before the target is loaded')
+        rest = A.calls_to(f, ('re', r'TensorStore::restore_from_bytes$'))
+        ok = False
+        for r_ in rest:
+            sl = A.backward_slice(f, [r_.args[1]], defs)
+            if any(x.endswith('CheckpointState.store_snapshot') for x in sl.fields) and any(x.endswith('CheckpointStorage::load') for x in sl.calls) or \
+                    any(x.endswith('CheckpointState.store_snapshot') for x in sl.fields):
+                ok = True
+        if rest and ok:
+            rep.holds('R08b', f, 'restores the loaded state', '')
+        elif rest:
+            rep.violation('R08b', f, 'restores-other-bytes', f.loc(rest[0].line), 'restore_from_bytes is not given the loaded checkpoint\'s store_snapshot')
+    rep.floor('R08b', 'rollback bodies that load a checkpoint', n, 1)
+
+
 def run(ctx, rep):
     r08a(ctx, rep)
+    r08b(ctx, rep)
